@@ -95,8 +95,10 @@ def build_specs(rng, quick, ops, keep_snapshots=False, band=None):
             s["band"] = band
         specs.append(s)
 
-    small = [(7, 8, 4), (6, 2, 4), (8, 1, 8), (6, 32, 2), (9, 4, 4)] if quick else \
-        [(7, 8, 4), (6, 2, 4), (8, 1, 8), (6, 32, 2), (9, 4, 4), (10, 8, 2), (8, 32, 4), (12, 2, 8), (9, 1, 16)]
+    # (samples, depth, channels): odd channel counts (a centre channel) are part of every run
+    small = [(7, 8, 4), (6, 2, 4), (8, 1, 8), (6, 32, 2), (9, 4, 4), (6, 8, 3), (5, 32, 5)] if quick else \
+        [(7, 8, 4), (6, 2, 4), (8, 1, 8), (6, 32, 2), (9, 4, 4), (10, 8, 2), (8, 32, 4), (12, 2, 8), (9, 1, 16), (6, 8, 3), (5, 32, 5), (7, 8, 5),
+         (8, 32, 7)]
     for n, nbits, c in small:
         ranges = [(s, m) for s in range(0, n) for m in range(1, n - s + 1)]
         rng.shuffle(ranges)
